@@ -20,6 +20,10 @@ CLAIMED = {
   "text": "Bounded symbolic model checking of one EVM instruction step through the real EVMInterpreter.Run for every opcode byte, operand magnitude class, gas limit and read-only flag (no host panic feasible, gas only decreases), of the call/create family with symbolic callee/value/gas, of the stack-bound lemma (each operation's declared maxStack equals its real stack effect), and exact lemmas for the gas/memory arithmetic kernels over all 64-bit arguments.",
   "note": "Trusted: gosym and its models, z3. Whole-program termination follows from the per-step results by induction (argued in DESIGN.md, not solved). Precompile cryptographic cores are stubbed. All Proposal forks active.",
  },
+ "C12": {
+  "text": "Bounded symbolic model checking on the real EVM over a real AccountDB: for every opcode byte executed in a read-only frame (also after a nested STATICCALL returned) and for every combination of 8 state mutators with 4 frame endings and 3 call values, every observer of the state (balances, nonce, storage, transient storage, logs, self-destruct flags, existence, code, state root) answers as before when the frame was static or failed; Prepare leaves no access-list / transient-storage / refund residue for arbitrary addresses and slots.",
+  "note": "Trusted: gosym and its models, z3. Most inputs of these harnesses are enumerated choices (opcode byte, mutator, ending); symbolic values are the address/slot/value of the scratch-state harness. Nesting depth two.",
+ },
 }
 PENDING = "check not built yet in this session (planned, see DESIGN.md section 5)"
 NA = {
